@@ -15,13 +15,17 @@ IPCONV = drv("ipconv", ["props/ipconv.cpp"])
 ENUMNAMES = drv("enumnames", ["props/enumnames.cpp"])
 BGPSEC = drv("bgpsec", ["props/bgpsec.cpp"], deps=["model/rfc8205.hpp"])
 MGR = drv("mgr", ["props/mgr.cpp"], ldflags="-lrapidcheck -Wl,--wrap=rtr_start,--wrap=rtr_stop")
+LOCKWRAPS = " -Wl,--wrap=pthread_rwlock_wrlock,--wrap=pthread_rwlock_rdlock,--wrap=pthread_rwlock_unlock"
+CONC = drv("conc", ["props/conc.cpp"], ldflags="-lrapidcheck" + LOCKWRAPS)
+CONC_TSAN = drv("conc_tsan", ["props/conc.cpp"], flavour="tsan", ldflags="-lrapidcheck" + LOCKWRAPS)
+ALLOCFAIL = drv("allocfail", ["props/allocfail.cpp"])
 WRAPS = " -Wl,--wrap=lrtr_get_monotonic_time,--wrap=sleep,--wrap=lrtr_dbg"
 CONV = drv("conv", ["props/conv.cpp", "engine/convsim.cpp"], ldflags="-lrapidcheck" + WRAPS,
            deps=["engine/convsim.hpp", "engine/convsim_model.inc", "engine/convsim_mock.inc", "engine/convsim_run.inc", "engine/judge.hpp",
                  "engine/cache.hpp", "engine/script.hpp", "engine/wire.hpp"])
 
 ENGINES = [
-    {"name": "rapidcheck-drivers", "path": "props/", "serves_properties": ["C01", "C02", "C09", "C10", "C11", "C12", "C15", "C19", "C20"],
+    {"name": "rapidcheck-drivers", "path": "props/", "serves_properties": ["C01", "C02", "C09", "C10", "C11", "C12", "C15", "C16", "C18", "C19", "C20"],
      "kind_free_text": "C++17 rapidcheck drivers linked against rtrlib built from the working tree (ASan+UBSan subset, asserts on); model-based / stateful"},
 ]
 
@@ -280,5 +284,43 @@ CHECKS = {
         "stages": [{"driver": MGR,
                     "quick": {"procs": 8, "rc": (3000, 60)},
                     "thorough": {"procs": 16, "rc": (40000, 100), "timeout": 7200}}],
+    },
+    "C16": {
+        "level": "exploration",
+        "engine": "rapidcheck + pthreads (ASan and TSan flavours)",
+        "rule": "rapidcheck generates writer programs (add/remove/remove-by-source on a prefix table over 40 nested IPv4/IPv6 records x 3 sources and on a router-key table over 40 keys) and a reader count. "
+                "Stage det (deterministic): the rwlock calls are wrapped; at every point where the writer has just released a table's write lock the whole battery of 55 queries (validate_r incl. reasons, both enumerations, get_all, search_by_ski) "
+                "is evaluated in place and each answer must equal the model's answer before or after the operation in progress — every reader-observable state between critical sections, enumerated. "
+                "Stage thr (ASan): 2/4/8 reader threads loop over the battery while the writer runs the program, 3 rounds per program with case-derived yields at lock calls; each answer must match the model in some state k in [finished-before-call, started-after-call]. "
+                "Stage thr (TSan): same, any ThreadSanitizer report is a violation. non-trivial = (det) a program with an operation that has more than one unlock point, (thr) a program during which reader calls overlapped a write; distinct by hash of the program and stage.",
+        "assumptions": ["det stage: every mutation happens under the write lock (that is what the TSan stage examines)", "thr stages sample OS schedules; a replay reproduces the program, not the schedule (re-run up to 30 times)"],
+        "floor": {"quick": 100, "thorough": 1000},
+        "technique": "property-based concurrency testing: lock-release-point enumeration against a sequential model + threaded linearizability oracle + ThreadSanitizer",
+        "level_text": "Exhaustive (per generated program) over the states observable between critical sections; sampled over real interleavings with a linearizability oracle and happens-before race detection.",
+        "level_note": "Cannot show absence of a bad interleaving inside correctly locked sections (none can exist) nor of races the sampled schedules never overlap; TSan needs only an overlap, not the bad outcome.",
+        "stages": [{"driver": CONC, "args": ["--mode", "det"],
+                    "quick": {"procs": 4, "rc": (150, 80)}, "thorough": {"procs": 16, "rc": (1500, 200), "timeout": 7200}},
+                   {"driver": CONC, "args": ["--mode", "thr"], "replay_tries": 30, "replay_need": 1, "ddmin": False,
+                    "quick": {"procs": 3, "rc": (25, 100)}, "thorough": {"procs": 6, "rc": (600, 200), "timeout": 7200}},
+                   {"driver": CONC_TSAN, "args": ["--mode", "thr"], "replay_tries": 30, "replay_need": 1, "ddmin": False,
+                    "quick": {"procs": 3, "rc": (20, 100)}, "thorough": {"procs": 6, "rc": (500, 200), "timeout": 7200}}],
+    },
+    "C18": {
+        "level": "fault_enumeration",
+        "engine": "rapidcheck + per-fault re-execution",
+        "rule": "stage tables: rapidcheck generates histories (<= 24 operations) of prefix-table add/remove/remove-by-source/validate-with-reasons and router-key add/remove/remove-by-source/get_all/search_by_ski/bulk add of 28..44 keys "
+                "(crossing the hash table's grow steps)/bulk delete/the reload sequence (copy_except_socket + swap). A counting allocator installed with lrtr_set_alloc_functions keeps a ledger of live blocks. Run 0 counts the N allocations and requires "
+                "that after the tables are freed the ledger is empty and no unknown block was passed to free. Then for EVERY k in 1..N the history is re-run (fresh tables, fresh model) with allocation k returning NULL once: the run must not crash (ASan/UBSan, asserts on); the call during which the failure "
+                "happened must either report an error and leave the table equal to the model without that call, or succeed with its full effect; every later call must agree with the model. evaluations = histories + injected failures; "
+                "non-trivial = (history, k) pairs in which allocation k is not the first allocation of its operation (the failure hits a half-done operation); distinct by (history hash, index).",
+        "assumptions": ["std::set models of both tables", "exhaustive over k for each generated history; histories are sampled"],
+        "floor": {"quick": 30, "thorough": 300},
+        "exhaustive_note": "for each generated history every allocation index 1..N is failed in turn (complete enumeration of single-failure placements for that history)",
+        "technique": "fault enumeration: k-th-allocation-fails for every k over rapidcheck-generated histories, model-based no-partial-effect oracle, allocator ledger",
+        "level_text": "Exhaustive single-fault enumeration per history (every allocation site reached, failed one at a time), histories sampled; allocator pairing checked with a ledger.",
+        "level_note": "Only single failures (one NULL per run). The synchronisation part (temporary PDU stores, shadow tables inside rtr_sync) is covered by the conversation stage.",
+        "stages": [{"driver": ALLOCFAIL,
+                    "quick": {"procs": 8, "rc": (60, 60)},
+                    "thorough": {"procs": 16, "rc": (4000, 100), "timeout": 7200}}],
     },
 }
